@@ -25,6 +25,10 @@ pub struct Leaf {
     pub ew: usize,
     #[serde(default)]
     pub sq: String,
+    #[serde(default)]
+    pub ls: String,
+    #[serde(default)]
+    pub px: String,
 }
 
 #[derive(Debug, Clone, Copy, Default)]
@@ -627,6 +631,54 @@ pub fn text_mutate(text: &str, leaf: &Leaf, m: &str) -> Option<String> {
                 return None;
             }
             Some(replace(""))
+        }
+        m if m.starts_with("lst_") => {
+            // separator-structured value: `tok` is the list, `sep` its separator
+            let sep = leaf.ls.chars().next()?;
+            let first_end = tok.find(sep).unwrap_or(tok.len());
+            let first = &tok[..first_end];
+            let rest = &tok[first_end..];
+            let new = match m {
+                "lst_empty_mid" => {
+                    if first_end < tok.len() {
+                        format!("{first}{sep}{rest}")
+                    } else {
+                        format!("{tok}{sep}{sep}{tok}")
+                    }
+                }
+                "lst_lead" => format!("{sep}{tok}"),
+                "lst_trail" => format!("{tok}{sep}"),
+                "lst_only_sep" => sep.to_string(),
+                "lst_multibyte" => format!("\u{e9}{rest}"),
+                "lst_multibyte_first" => format!("\u{e9}{tok}"),
+                "lst_prefix_only" => format!("{}{rest}", leaf.px),
+                "lst_many" => {
+                    let unit = first.len() + 1;
+                    let n = 10_000usize.min(fill_target().saturating_sub(text.len()) / unit.max(1));
+                    if n < 2 {
+                        return None;
+                    }
+                    let mut t = String::with_capacity(tok.len() + n * unit);
+                    t.push_str(tok);
+                    for _ in 0..n {
+                        t.push(sep);
+                        t.push_str(first);
+                    }
+                    t
+                }
+                "lst_long" => {
+                    let n = 50_000usize.min(fill_target().saturating_sub(text.len()));
+                    if n < 1000 {
+                        return None;
+                    }
+                    format!("{}{rest}", "a".repeat(n))
+                }
+                _ => return None,
+            };
+            if new == tok {
+                return None;
+            }
+            Some(replace(&new))
         }
         "swap" => {
             // the line exchanged with the one that follows it
